@@ -840,6 +840,8 @@ func runC14(c *Ctx) {
 	ruleS4(c, "K5")
 	ruleK6(c, "K6")
 	ruleK7(c, "K7")
+	r.Rule("K8", "csv/tsv readers keep encoding/csv's defaults apart from the separator", 1)
+	ruleCsvReaderOptions(c, "K8", nil)
 	// K4: E1 (error discipline) + E2 (flush) restricted to codec files
 	before := len(r.obligs)
 	ruleE1(c, "K4")
